@@ -68,6 +68,7 @@ Lemma remove_cp_ok n dp s s' :
   (forall x, In x (snd s') <-> In x (cp_del_list (fst s) n dp) \/ In x (snd s)).
 Proof.
   intros C E. unfold remove_cp_and_links in E.
+  apply bind_ok in E. destruct E as [[] [s0 [E0 E]]]. apply read_ok in E0. destruct E0 as [_ ->].
   apply bind_ok in E. destruct E as [x0 [s1 [E1 E]]]. apply need_node_ok in E1. destruct E1 as [F ->].
   apply bind_ok in E. destruct E as [l [s1 [E1 E]]]. apply get_ok in E1. destruct E1 as [-> ->].
   apply for_each_set_ok in E. destruct (for_each_delete_ok _ _ _ E) as [H1 H2].
